@@ -26,6 +26,15 @@ Inductive exc (A : Type) := Ok (a : A) | Err (e : err).
 Inductive nanv (A : Type) := Val (a : A) | Nan.
 Arguments Ok {A} a. Arguments Err {A} e. Arguments Val {A} a. Arguments Nan {A}.
 
+(** fuel of the translated recursions (named constants, so that comparing two copies of the
+    generated text never starts unrolling them):
+    - [fuel_rec]  : depth of the self-recursion of [_digamma] / [_trigamma] (at most ten calls
+                    for any finite argument: one reflection, then steps of one up to 8.5);
+    - [fuel_loop] : iterations of a translated [while] loop; the loops of approx.py raise at
+                    [itt > 100], i.e. they never run more than 102 times. *)
+Definition fuel_rec : nat := 24.
+Definition fuel_loop : nat := 103.
+
 (** ** Functions and constants the generated code may call *)
 Record Fns (N : Num) := mkFns {
   f_exp    : T N -> T N;
@@ -70,6 +79,22 @@ Section Helpers.
           (add N (f_lit N F 1 100000000 0x1.5798ee2308c3ap-27%float)
                  (mul N (f_lit N F 1 100000 0x1.4f8b588e368f1p-17%float) (absN b))).
 End Helpers.
+
+(** ** The functions of tsdate/hypergeo.py as seen from tsdate/approx.py.
+    approx.py calls them through the module (`hypergeo._hyp2f1_laplace`); the regenerated text of
+    approx.py takes this record as a parameter, so the theorems about approx.py hold for ANY
+    Laplace approximants, and the record is instantiated by [HypergeoGen.hypfns] (the regenerated
+    text of hypergeo.py) for evaluation.  The result types are the ones the translator infers
+    from hypergeo.py today; if they change (say a `return nan` is added), the generated
+    definition of [hypfns] no longer type-checks and the tie is reported broken. *)
+Record HypFns (N : Num) := mkHypFns {
+  h_digamma : T N -> exc (T N);
+  h_trigamma : T N -> exc (T N);
+  h_betaln : T N -> T N -> T N;
+  h_hyperu_laplace : T N -> T N -> T N -> exc (T N * T N);
+  h_hyp1f1_laplace : T N -> T N -> T N -> exc (T N);
+  h_hyp2f1_laplace : T N -> T N -> T N -> T N -> exc (T N)
+}.
 
 (** ** Reals *)
 Definition RF (lgam : R -> R) (egamma : R) : Fns RNum :=
